@@ -196,18 +196,22 @@ def parse_version_payload(versionpayload_: bytes) -> dict:
     }
     # parse compact size uint varint for user_agent_bytes
     user_agent_byte = versionpayload_[80]
+    ua_index = 81  # index of the first byte after the compact size uint
     if user_agent_byte < 253:
         user_agent_len = user_agent_byte
         parsed_payload["user_agent_bytes"] = user_agent_len
     elif user_agent_byte == 253:
         user_agent_len = int.from_bytes(versionpayload_[81:83], "little")
         parsed_payload["user_agent_bytes"] = user_agent_len
+        ua_index = 83
     elif user_agent_byte == 254:
         user_agent_len = int.from_bytes(versionpayload_[81:85], "little")
         parsed_payload["user_agent_bytes"] = user_agent_len
+        ua_index = 85
     elif user_agent_byte == 255:
         user_agent_len = int.from_bytes(versionpayload_[81:89], "little")
         parsed_payload["user_agent_bytes"] = user_agent_len
+        ua_index = 89
     # parse rest of payload
     if user_agent_len == 0:
         parsed_payload["start_height"] = int.from_bytes(
@@ -223,16 +227,21 @@ def parse_version_payload(versionpayload_: bytes) -> dict:
                 f"parse error, data longer than expected: {len(versionpayload_)}"
             )
     else:
-        parsed_payload["user_agent"] = versionpayload_[81 : 81 + user_agent_len]
+        parsed_payload["user_agent"] = versionpayload_[
+            ua_index : ua_index + user_agent_len
+        ]
         parsed_payload["start_height"] = int.from_bytes(
-            versionpayload_[81 + user_agent_len : 81 + user_agent_len + 4], "little"
+            versionpayload_[
+                ua_index + user_agent_len : ua_index + user_agent_len + 4
+            ],
+            "little",
         )
-        if versionpayload_[81 + user_agent_len + 4] == b"\x01":
+        if versionpayload_[ua_index + user_agent_len + 4] == 1:
             parsed_payload["relay"] = True
-        elif versionpayload_[81 + user_agent_len + 4] == b"\x00":
+        elif versionpayload_[ua_index + user_agent_len + 4] == 0:
             parsed_payload["relay"] = False
 
-        if versionpayload_[81 + user_agent_len + 4 + 1 :]:
+        if versionpayload_[ua_index + user_agent_len + 4 + 1 :]:
             raise ValueError(
                 f"parse error, data longer than expected: {len(versionpayload_)}"
             )
